@@ -573,12 +573,18 @@ func (d *cnDriver) step() error {
 				id = int64(1 + d.rng.Intn(d.nProposals))
 			}
 			switch d.rng.Intn(8) {
-			case 0:
+			case 0, 2:
+				// users: eligible only as delegators to a current validator and only if the parameters allow voting without an entity
 				who, validity = n.users[d.rng.Intn(len(n.users))].name, "noteligible"
 			case 1:
 				id, validity = int64(d.nProposals+3), "noproposal"
 			}
-			sp = &cnTxSpec{Kind: "vote", Signer: who, Amount: id, Vote: []string{"yes", "yes", "no", "abstain"}[d.rng.Intn(4)], Gas: 5000, Validity: validity}
+			// odd proposals are popular (so that some pass), even ones divisive
+			choices := []string{"yes", "yes", "no", "abstain"}
+			if id%2 == 1 {
+				choices = []string{"yes", "yes", "yes", "yes", "yes", "no", "abstain"}
+			}
+			sp = &cnTxSpec{Kind: "vote", Signer: who, Amount: id, Vote: choices[d.rng.Intn(len(choices))], Gas: 5000, Validity: validity}
 		}
 		sp.Nonce = uint64(d.acctField(sp.Signer, "n")) + nonceBump[sp.Signer]
 		if raw, err := n.buildTx(sp, d.rng); err == nil {
@@ -906,11 +912,15 @@ func (d *cnDriver) observe(b *cnBlock, metas []cnTxMeta) cnBlockResult {
 		if rerr != nil {
 			panic(rerr)
 		}
+		govp, gerr := n.governanceProjection(st2(r))
+		if gerr != nil {
+			panic(gerr)
+		}
 		res.AppHash = r.commit()
 		d.lastProj = proj
 		d.lastReg = regp
 		d.emit(map[string]any{"ev": "reg", "h": b.Height, "reg": regp})
-		d.emit(map[string]any{"ev": "end", "h": b.Height, "state": proj, "valupd": res.ValUpd, "valupd2": valRecords(res.ValUpd), "apphash": res.AppHash[:16]})
+		d.emit(map[string]any{"ev": "end", "h": b.Height, "state": proj, "gov": govp, "valupd": res.ValUpd, "valupd2": valRecords(res.ValUpd), "apphash": res.AppHash[:16]})
 	})
 	if perr != nil {
 		res.Panic = perr.Error()
